@@ -46,6 +46,13 @@ def rhs_vectors(n, quick):
     return vecs
 
 
+def rhs_snapshot(A, b, blocked):
+    """Copy of the projections of the right-hand side onto the dual space(s) of A (what every solver reads)."""
+    if blocked:
+        return np.concatenate([np.array(bi.projections(d)).reshape(-1) for bi, d in zip(b, A.dual_to_range_spaces)])
+    return np.array(b.projections(A.dual_to_range)).reshape(-1)
+
+
 def to_functions(bem, A, blocked, x):
     sps = domain_spaces(A, blocked)
     out, off = [], 0
@@ -90,6 +97,7 @@ def check_mesh(ctx, name, quick):
             f = to_functions(bem, A, blocked, x)
             b = A * f
             case0 = {"mesh": name, "operator": label, "rhs": "unit/complex vector with first non-zero at %d" % int(np.flatnonzero(x)[0])}
+            b_before = rhs_snapshot(A, b, blocked)
             nx = float(np.linalg.norm(x))
             # ---- direct -------------------------------------------------------------------
             for how in ("lu", "lu-factors"):
@@ -107,6 +115,9 @@ def check_mesh(ctx, name, quick):
                     ctx.violation("%s/solution" % how, case, "lu(A, A*f) differs from f by %.2e (cond %.1e)" % (err, kw))
                 if not spaces_ok(res, A, blocked):
                     ctx.violation("%s/spaces" % how, case, "returned functions do not live in the domain space(s) of A")
+                if not np.array_equal(rhs_snapshot(A, b, blocked), b_before):
+                    ctx.violation("%s/rhs-modified" % how, case, "the right-hand side passed to the solver was changed by the call (the stated system is A x = b for the b given)")
+                    b = A * f
             # ---- iterative -----------------------------------------------------------------
             tols = [1e-4, 1e-8, 1e-12] if not quick else [1e-4, 1e-10]
             combos = list(itertools.product(tols, (None, 5), (None, 500), (False, True), (False, True), (False, True)))
@@ -173,6 +184,8 @@ def judge(ctx, solver, case, out, rr, ric, x, W, S, strong, kw, ks, tol, A, bloc
         ctx.violation("%s/solution" % solver, case, "solution error %.2e exceeds 10*cond*tol = %.2e" % (err, 10 * kappa * tol))
     if not spaces_ok(res, A, blocked):
         ctx.violation("%s/spaces" % solver, case, "returned functions do not live in the domain space(s) of A")
+    if not np.allclose(rhs_snapshot(A, b, blocked), rhs, rtol=0, atol=1e-12 * float(np.linalg.norm(rhs))) and not strong:
+        ctx.violation("%s/rhs-modified" % solver, case, "the right-hand side passed to the solver no longer equals A*f after the call")
     if ric and (not isinstance(count, (int, np.integer)) or count < 1):
         ctx.violation("%s/iteration-count" % solver, case, "iteration count %r" % (count,))
     if rr:
